@@ -89,6 +89,8 @@ NDev == 8
 (* the enabled deviations, computed once per initial state and carried in the state *)
 DevFlags == [k \in 1..NDev |-> On(DevNames[k])]
 
+(* Max(S) and Min(S) of a set of integers come from FiniteSetsExt (via SequencesExt) *)
+
 (* verdict codes: 0 ok, 1..8 explained only by deviation DevNames[k], 9 bad, -1 not judged *)
 Worst(a, b) ==
     CASE a = 9 \/ b = 9 -> 9
@@ -113,16 +115,26 @@ Judge(a, r, DOn) ==
       [] DOn[6] /\ D6(a, r) -> 6
       [] OTHER -> 9
 
-RefVerdict(C, e, DOn) ==
+(* the automaton states of all referenced substrings: one walk per start position *)
+Walk(cls, s, ps) ==
+    FoldLeft(LAMBDA w, c :
+                LET b == Step(w.a, c, FALSE) IN
+                [a |-> b, i |-> w.i + 1,
+                 acc |-> IF (w.i + 1) \in ps THEN w.acc @@ ((w.i + 1) :> b) ELSE w.acc],
+             [a |-> A0, i |-> s, acc |-> <<>>],
+             SubSeq(cls, s + 1, Max(ps))).acc
+StateTable(C) ==
+    [s \in {C.refs[k][1] : k \in 1..Len(C.refs)} |->
+        Walk(C.cls, s, {C.refs[k][2] : k \in {l \in 1..Len(C.refs) : C.refs[l][1] = s}})]
+
+RefVerdict(C, e, DOn, ST) ==
     LET r == C.tab[e[3]] IN
     IF r[1] = "panic" THEN -1
-    ELSE LET a == RunIx(A0, C.cls, e[1] + 1, e[2], FALSE)
+    ELSE LET a == ST[e[1]][e[2]]
              v == Judge(a, r, DOn) IN
          IF v # 9 \/ ~DOn[5] THEN v
          ELSE LET b == RunIx(A0, C.cls, e[1] + 1, e[2], TRUE) IN
               IF b # a /\ Judge(b, r, DOn) # 9 THEN 5 ELSE 9
-
-Max(S) == CHOOSE k \in S : \A l \in S : k >= l
 
 (* ---------------- L1: the pieces of a run against the references ---------------- *)
 CanStart == {"none", "sp", "nl", "(", "[", "{", ";", ":", "-", "*", "/", ",", "op", "+"}
@@ -146,18 +158,21 @@ Lookback(C, s, p, prevLast, o, r, DOn) ==
 RECURSIVE FirstNonBlank(_, _, _)
 FirstNonBlank(cls, i, n) == IF i > n THEN "none"
                             ELSE IF cls[i] \in {"sp", "nl"} THEN FirstNonBlank(cls, i + 1, n) ELSE cls[i]
-DottedPause(C, s, e) ==
-    LET a == RunIx(A0, C.cls, s + 1, e, FALSE) IN
-    /\ a.st # <<>> /\ Last(a.st) \in {"(", "{"} /\ Last(a.ec) >= 1 /\ a.m = "code"
-    /\ \/ a.at = "none" /\ FirstNonBlank(C.cls, e + 1, Len(C.cls)) = "bs"
-       \/ /\ a.at = "odd" /\ C.cls[e] = "bs"
-          /\ (e = s + 1 \/ C.cls[e - 1] \notin {"a", "1", ".", "bs", "x"})
+DottedPause(C, ST, s, e) ==
+    LET a == ST[s][e] IN
+    /\ a.st # <<>> /\ Last(a.st) \in {"(", "{"} /\ Last(a.ec) >= 1
+    /\ \/ a.m = "code" /\ a.at = "none" /\ FirstNonBlank(C.cls, e + 1, Len(C.cls)) = "bs"
+       \/ (* the atom in progress is exactly \ (possibly with a / pending behind it) *)
+          \E k \in {e - 1, e} :
+             /\ k > s /\ C.cls[k] = "bs" /\ a.at = "odd"
+             /\ (k = e /\ a.m = "code") \/ (k = e - 1 /\ C.cls[e] = "/" /\ a.m = "slash")
+             /\ (k = s + 1 \/ C.cls[k - 1] \notin {"a", "1", ".", "bs", "x"})
 (* an earlier pause of this segment came directly after a quote prefix % ^ ~ *)
-PrefixPause(C, s, segcuts) ==
-    \E e \in segcuts : RunIx(A0, C.cls, s + 1, e, FALSE).lt = "prefix"
+PrefixPause(ST, s, segcuts) ==
+    \E e \in segcuts : ST[s][e].lt = "prefix"
 
-RECURSIVE PieceV(_, _, _, _, _, _, _, _)
-PieceV(C, run, j, s, prevLast, first, DOn, segcuts) ==
+RECURSIVE PieceV(_, _, _, _, _, _, _, _, _)
+PieceV(C, run, j, s, prevLast, first, DOn, segcuts, ST) ==
     IF j > Len(run[5]) THEN 0
     ELSE LET n == Len(C.cls)
              p == IF j <= Len(run[4]) THEN run[4][j] ELSE n
@@ -171,30 +186,30 @@ PieceV(C, run, j, s, prevLast, first, DOn, segcuts) ==
                               [] DOn[4] /\ first /\ j <= Len(run[6]) /\ oi = run[6][j] -> 4
                               [] DOn[3] /\ Lookback(C, s, p, prevLast, o, r, DOn) -> 3
                               [] DOn[7] /\ segcuts # {} /\ o[1] = "err" /\ r[1] # "err"
-                                 /\ DottedPause(C, s, Max(segcuts)) -> 7
-                              [] DOn[8] /\ PrefixPause(C, s, segcuts) -> 8
+                                 /\ DottedPause(C, ST, s, Max(segcuts)) -> 7
+                              [] DOn[8] /\ PrefixPause(ST, s, segcuts) -> 8
                               [] OTHER -> 9 IN
                    IF v = 9 THEN 9
                    ELSE IF o[1] = "more"
-                        THEN Worst(v, PieceV(C, run, j + 1, s, prevLast, first, DOn, segcuts \cup {p}))
+                        THEN Worst(v, PieceV(C, run, j + 1, s, prevLast, first, DOn, segcuts \cup {p}, ST))
                         ELSE Worst(v, PieceV(C, run, j + 1, p,
-                                             IF o[1] = "err" THEN "?" ELSE C.cls[p], FALSE, DOn, {}))
+                                             IF o[1] = "err" THEN "?" ELSE C.cls[p], FALSE, DOn, {}, ST))
 
-RunVerdict(C, run, DOn) == PieceV(C, run, 1, 0, ClassNames[run[2]], TRUE, DOn, {})
+RunVerdict(C, run, DOn, ST) == PieceV(C, run, 1, 0, ClassNames[run[2]], TRUE, DOn, {}, ST)
 
 VARIABLES ci, verdict, dv
 tvars == <<ci, verdict, dv>>
 
 TInit == ci \in 1..(IF NShard = 0 THEN 1 ELSE NShard) /\ verdict = "run" /\ dv = DevFlags
 
-Min(S) == CHOOSE k \in S : \A l \in S : k <= l
 NamesOf(S) == [k \in 1..Cardinality(S) |->
                  DevNames[CHOOSE d \in S : Cardinality({e \in S : e < d}) = k - 1]]
 
 (* all reference judgements (L2) and all runs (L1) of one case; prints its verdict *)
 JudgeCase(C, DOn) ==
-    LET RC == [k \in 1..Len(C.refs) |-> RefVerdict(C, C.refs[k], DOn)]
-        UC == [k \in 1..Len(C.runs) |-> RunVerdict(C, C.runs[k], DOn)]
+    LET ST == StateTable(C)
+        RC == [k \in 1..Len(C.refs) |-> RefVerdict(C, C.refs[k], DOn, ST)]
+        UC == [k \in 1..Len(C.runs) |-> RunVerdict(C, C.runs[k], DOn, ST)]
         br == {k \in 1..Len(C.refs) : RC[k] = 9}
         bu == {k \in 1..Len(C.runs) : UC[k] = 9}
         kn == {RC[k] : k \in 1..Len(C.refs)} \cup {UC[k] : k \in 1..Len(C.runs)}
